@@ -92,6 +92,11 @@ func init() {
 		if err := runRuntime(r, "C02"); err != nil {
 			return err
 		}
+		// the -switch optimiser computes first-character sets with package set (Union, AddRange, Intersects, Complement, Has,
+		// Len): its contracts are part of what C02 rests on
+		if err := runC16(r); err != nil {
+			return err
+		}
 		return runClosureProperty(r, "C02", [][]string{{"-inline"}, {"-switch"}, {"-inline", "-switch"}}, false)
 	}})
 	register(&propertyDef{ID: "C07", Level: "translation_validation", Run: func(r *Run) error {
